@@ -204,6 +204,16 @@ func (f *Frame) call(in ssa.Instruction, cc *ssa.CallCommon, st *State) []Term {
 		}
 		g := c.heapGet(st, "G|"+constant.StringVal(k.Value), ArrSort(SInt, SInt))
 		return []Term{Select(g, IntLit(0))}
+	case "__visited":
+		// ghost: key k of map m has been yielded by the current range loop over m
+		mt := cc.Args[0].Type()
+		if _, ok := mt.Underlying().(*types.Map); !ok {
+			c.unsupported(f, "__visited needs a map")
+		}
+		vk := mapKey(mt) + "#visited"
+		c.eng.keySorts[vk] = mapPresentSort(mt)
+		hvis := c.heapGet(st, vk, mapPresentSort(mt))
+		return []Term{Select(Select(hvis, args[0][0]), args[1][0])}
 	case "__canUnread":
 		g := c.heapGet(st, ghostCanUnread, ArrSort(SInt, SBool))
 		return []Term{Select(g, args[0][0])}
@@ -1339,15 +1349,40 @@ func (f *Frame) builtinAppend(in ssa.Instruction, cc *ssa.CallCommon, args [][]T
 		c.n++
 		i := Term{fmt.Sprintf("i!%d", c.n), SInt}
 		inWin := And(fits, Ge(i, Add(s[1], s[2])), Lt(i, Add(s[1], newLen)))
-		c.assertDef(naFit, Forall([]Term{i}, Eq(Select(naFit, i), Ite(inWin, tail(Sub(i, s[1])), Select(srcOld, i))), []Term{Select(naFit, i)}))
+		c.assertDef(naFit, Forall([]Term{i}, Eq(Select(naFit, i), Ite(inWin, tail(Sub(i, s[1])), Select(srcOld, i))), []Term{Select(naFit, i)}, []Term{Select(srcOld, i)}))
+		{
+			// ground instance at the first appended position (gives triggers a
+			// term for "the element just appended")
+			i0 := Add(s[1], s[2])
+			inWin0 := And(fits, Ge(i0, Add(s[1], s[2])), Lt(i0, Add(s[1], newLen)))
+			c.assertDef(naFit, Eq(Select(naFit, i0), Ite(inWin0, tail(Sub(i0, s[1])), Select(srcOld, i0))))
+		}
 		// reallocation: old elements then the appended ones, from index 0
 		naNew := c.fresh("appnew", asort)
 		c.n++
 		j := Term{fmt.Sprintf("j!%d", c.n), SInt}
 		c.assertDef(naNew, Forall([]Term{j}, Implies(And(Ge(j, IntLit(0)), Lt(j, newLen)), Eq(Select(naNew, j), Ite(Lt(j, s[2]), Select(srcOld, Add(s[1], j)), tail(j)))), []Term{Select(naNew, j)}))
+		c.assertDef(naNew, Implies(And(Ge(s[2], IntLit(0)), Lt(s[2], newLen)), Eq(Select(naNew, s[2]), Ite(Lt(s[2], s[2]), Select(srcOld, Add(s[1], s[2])), tail(s[2])))))
 		// no array-level ite: when the append reallocates, naFit equals the old
 		// contents pointwise and the fresh array is written as well
-		c.setHeap(st, key, c.define("heap", Store(Store(h, s[0], naFit), fresh, naNew)))
+		{
+			// old elements seen from the old array (trigger on reads of the old contents)
+			c.n++
+			i2 := Term{fmt.Sprintf("i!%d", c.n), SInt}
+			c.assertDef(naNew, Forall([]Term{i2}, Implies(And(Ge(i2, s[1]), Lt(i2, Add(s[1], s[2]))), Eq(Select(naNew, Sub(i2, s[1])), Select(srcOld, i2))), []Term{Select(srcOld, i2)}))
+		}
+		nh := c.define("heap", Store(Store(h, s[0], naFit), fresh, naNew))
+		c.setHeap(st, key, nh)
+		// which of the two arrays the result slice uses (derived; lets reads
+		// through the result's view and reads of naFit/naNew share terms)
+		c.assertDef(naFit, Implies(fits, Eq(Select(nh, resBase), naFit)))
+		c.assertDef(naNew, Implies(Not(fits), Eq(Select(nh, resBase), naNew)))
+		// derived ground fact, stated the way a specification reads the result
+		// (through the result slice's view): the element at the old length is
+		// the first appended one. It follows from the two definitions above
+		// and gives quantifier triggers a term for "the element just appended".
+		first := Select(c.shiftView(Select(nh, resBase), resOff), s[2])
+		c.assertDef(naFit, Implies(Ge(tLen, IntLit(1)), Eq(first, tail(s[2]))))
 	}
 	return []Term{resBase, resOff, newLen, resCap}
 }
@@ -1385,7 +1420,7 @@ func (f *Frame) builtinCopy(in ssa.Instruction, cc *ssa.CallCommon, args [][]Ter
 			src = Select(Select(h, sBase), Add(sOff, Sub(j, d[1])))
 		}
 		inWin := And(Ge(j, d[1]), Lt(j, Add(d[1], n)))
-		c.assertDef(na, Forall([]Term{j}, Eq(Select(na, j), Ite(inWin, src, Select(old, j))), []Term{Select(na, j)}))
+		c.assertDef(na, Forall([]Term{j}, Eq(Select(na, j), Ite(inWin, src, Select(old, j))), []Term{Select(na, j)}, []Term{Select(old, j)}))
 		c.setHeap(st, key, c.define("heap", Store(h, d[0], na)))
 	}
 	return []Term{n}
